@@ -439,30 +439,31 @@ func runC14(c *Ctx) {
 	if se != nil {
 		adds := callsIn(se, idIs(esp+".(*tarFile).add"))
 		moves := callsIn(se, idIs(esp+".moveRec"))
-		// classify adds by the landmark name stored in the header literal
+		// classify adds by the landmark name stored in the header literal (a constant, or a local chosen between the two constants)
 		type lm struct {
-			ci   ssa.CallInstruction
-			name string
+			ci      ssa.CallInstruction
+			name    string
+			nameVal ssa.Value
 		}
 		var lms []lm
 		for _, a := range adds {
 			name := ""
-			for _, g := range []*ssa.Function{se} {
-				eachInstr(g, func(i ssa.Instruction) {
-					st, ok := i.(*ssa.Store)
-					if !ok {
-						return
+			var nameVal ssa.Value
+			eachInstr(se, func(i ssa.Instruction) {
+				st, ok := i.(*ssa.Store)
+				if !ok {
+					return
+				}
+				if fa, ok := st.Addr.(*ssa.FieldAddr); ok && fieldName(fa) == "Name" && strings.HasSuffix(typeQName(fa.X.Type()), "tar.Header") && st.Block() == a.Block() {
+					nameVal = st.Val
+					if s, ok := constString(st.Val); ok {
+						name = s
 					}
-					if fa, ok := st.Addr.(*ssa.FieldAddr); ok && fieldName(fa) == "Name" && strings.HasSuffix(typeQName(fa.X.Type()), "tar.Header") {
-						if s, ok := constString(st.Val); ok && st.Block() == a.Block() {
-							name = s
-						}
-					}
-				})
-			}
-			lms = append(lms, lm{a, name})
+				}
+			})
+			lms = append(lms, lm{a, name, nameVal})
 		}
-		good := len(lms) == 2
+		good := len(lms) == 2 || (len(lms) == 1 && lms[0].name == "")
 		var emptyE, nonEmptyE []edge
 		emptyE = condEdges(se, func(cond ssa.Value) int {
 			b, ok := cond.(*ssa.BinOp)
@@ -516,7 +517,46 @@ func runC14(c *Ctx) {
 					good, why = false, "prefetch landmark added for an empty list"
 				}
 			default:
-				good, why = false, "an entry other than a landmark is added to the prioritized area"
+				// one add whose name is chosen between the two constants: each choice is made on the matching emptiness edge
+				ph, isPhi := stripConv(l.nameVal).(*ssa.Phi)
+				if l.nameVal == nil || !isPhi {
+					good, why = false, "an entry other than a landmark is added to the prioritized area"
+					break
+				}
+				seen := map[string]bool{}
+				for ei, e := range ph.Edges {
+					sv, ok := constString(e)
+					if !ok || (sv != pfl && sv != npfl) {
+						good, why = false, "an entry other than a landmark is added to the prioritized area"
+						continue
+					}
+					seen[sv] = true
+					want := nonEmptyE
+					if sv == npfl {
+						want = emptyE
+					}
+					pred := ph.Block().Preds[ei]
+					onEdge := false
+					for si, sc := range pred.Succs {
+						if sc == ph.Block() {
+							for _, w := range want {
+								if w.from == pred.Index && w.succ == si {
+									onEdge = true
+								}
+							}
+						}
+					}
+					if okp, _ := mustPass(se, pred.Instrs[len(pred.Instrs)-1], newCuts().addEdges(want)); !(onEdge || (okp && len(want) > 0)) {
+						if sv == npfl {
+							good, why = false, "no-prefetch landmark added for a non-empty list"
+						} else {
+							good, why = false, "prefetch landmark added for an empty list"
+						}
+					}
+				}
+				if !seen[pfl] || !seen[npfl] {
+					good, why = false, "only one of the two landmarks can be emitted"
+				}
 			}
 		}
 		// exactly one on every successful path: every nil-error return passes one of them, and no path passes both
@@ -533,11 +573,12 @@ func runC14(c *Ctx) {
 					good, why = false, "a successful path adds no landmark"
 				}
 			}
-			if g, _ := reach(se, lms[0].ci, isInstr(lms[1].ci), nil); g != nil {
-				good, why = false, "a path adds two landmarks"
-			}
-			if g, _ := reach(se, lms[1].ci, isInstr(lms[0].ci), nil); g != nil {
-				good, why = false, "a path adds two landmarks"
+			for i := range lms {
+				for j := range lms {
+					if g, _ := reach(se, lms[i].ci, isInstr(lms[j].ci), nil); g != nil {
+						good, why = false, "a path adds two landmarks"
+					}
+				}
 			}
 			// after all moves: no moveRec reachable after a landmark add
 			for _, l := range lms {
@@ -624,7 +665,7 @@ func runC14(c *Ctx) {
 	c.clause("C14.b", "T5", "one pair of landmark constants: forced onto stream boundaries by Build, dropped from the input by importTar, emitted by sortEntries, looked up by the runtime prefetch and hidden by the FUSE layer", 5)
 	usesBoth := func(f *ssa.Function) bool {
 		has := map[string]bool{}
-		for _, g := range withAnon(f) {
+		for _, g := range c.withHelpers(f) {
 			eachInstr(g, func(i ssa.Instruction) {
 				var ops []*ssa.Value
 				for _, op := range i.Operands(ops) {
